@@ -172,10 +172,14 @@ def rg2(model):
     decl = {}
     for m, name, nargs, body, node in latex_defs(model):
         decl.setdefault(m.rel, set()).add(name)
+    opaque = set()      # modules with declarations whose name is computed (table-driven loops)
     for ent in tables.registry(model):
         name = _entry_name(model, ent, pstr)
         if name:
             decl.setdefault(ent['node']._mod.rel, set()).add(name)
+        elif ent['name'] is not None and not isinstance(ent['name'], ast.Constant):
+            opaque.add(ent['node']._mod.rel)
+            # string literals of the module are candidates for the computed names
     # names registered through helper tables (cleveref loops)
     for m in model.mods.values():
         for n in ast.walk(m.tree):
@@ -197,6 +201,9 @@ def rg2(model):
         for name in macros + envs:
             if name in have or (name.startswith('\\') and name.rstrip('*') in have):
                 r.ok_plain('%s declared in %s' % (name, src), 'registry / \\newcommand table')
+            elif src in opaque:
+                r.undec(model.mod('parameters').tree, 'catalogue entry %s of %s: the module declares macros '
+                        'with computed names (table-driven), which are not enumerated' % (name, src))
             else:
                 r.fail(model.mod('parameters').tree, 'catalogue entry %s is not declared by %s: it is '
                        'treated as unknown (its hidden arguments are copied to the output)' % (name, src),
